@@ -387,15 +387,21 @@ pub fn pin_this_thread() {
     if PINNED.with(|p| p.replace(true)) {
         return;
     }
-    unsafe {
+    // The CPUs this process may use, read once before anybody was pinned: a thread spawned by a pinned thread
+    // inherits its one-CPU mask, and reading the mask there would put every worker of a later exploration on the
+    // same CPU (a thorough run then crawls along on one core).
+    static ALLOWED: std::sync::OnceLock<Vec<usize>> = std::sync::OnceLock::new();
+    let cpus = ALLOWED.get_or_init(|| unsafe {
         let mut allowed: libc::cpu_set_t = std::mem::zeroed();
         if libc::sched_getaffinity(0, std::mem::size_of::<libc::cpu_set_t>(), &mut allowed) != 0 {
-            return;
+            return Vec::new();
         }
-        let cpus: Vec<usize> = (0..libc::CPU_SETSIZE as usize).filter(|c| libc::CPU_ISSET(*c, &allowed)).collect();
-        if cpus.is_empty() {
-            return;
-        }
+        (0..libc::CPU_SETSIZE as usize).filter(|c| libc::CPU_ISSET(*c, &allowed)).collect()
+    });
+    if cpus.is_empty() {
+        return;
+    }
+    unsafe {
         let k = NEXT_CPU.fetch_add(1, std::sync::atomic::Ordering::Relaxed);
         let cpu = cpus[k % cpus.len()];
         let mut set: libc::cpu_set_t = std::mem::zeroed();
